@@ -227,3 +227,13 @@ def merge_func_ref(target, **kwargs):
     if kwargs:
         raise TypeError('unexpected keyword args: %r' % sorted(kwargs.keys()))
     return glom(target, Merge(subspec, init, op))
+
+
+def sum_init_ref(self, subspec=T, init=int):
+    """Sum(subspec, init): a Fold of subspec starting from init() whose step is in-place addition"""
+    Fold.__init__(self, subspec=subspec, init=init, op=operator.iadd)
+
+
+def count_init_ref(self):
+    """Count(): a Fold over the target itself starting from int() whose step adds one per item (the item value is ignored)"""
+    Fold.__init__(self, subspec=T, init=int, op=lambda cur, val: cur + 1)
